@@ -8,8 +8,9 @@ reference-following traversals of `ModelEvaluator::new` / `evaluate_invocable`) 
 `Dmn.DT.evaluate` for the evaluation of a built table.  The XML layer (roxmltree), the stack and
 process aborts are **not** modelled: they are validated by the fault enumeration of
 `harness/src/c12.rs`.  The decision-table statements hold at full strength since f36e6c9
-(F11 repaired).  The termination statements are false on the current code (finding F12): they
-are kept as comments, proved in `_partial` form, with `_counterexample`s.
+(F11 repaired), the termination statements since aff91af and b66efe5 (F12a–e repaired:
+`ModelEvaluator::new` rejects cyclic requirements and self-referring item definitions).
+Unbounded recursion inside FEEL expressions (F12f, property C05) is outside this model.
 -/
 
 namespace Dmn.MB
@@ -195,26 +196,35 @@ example : buildTable ⟨[⟨true, none⟩], [⟨none, none, none⟩], [⟨[true]
       ⟨.collectSum, [], [.none], [.none], [⟨[.t], [.num 1]⟩]⟩ :=
   ⟨by decide, rfl, rfl, rfl⟩
 
-/-
--- FULL STATEMENT (not provable of the current code, finding F12):
-theorem build_terminates (d : Defs) : ∃ fuel, build d fuel ≠ .diverge
-theorem eval_terminates (d : Defs) (id : Nat) : ∃ fuel, evalDecision d fuel id ≠ .diverge
-for every definitions value including cyclic ones.  The traversals keep no visited set.
--/
+/-- The depth of reference-following a model can need: the number of decisions, knowledge
+models and decision services, or of item definitions. -/
+def bound (d : Defs) : Nat := max (nodeCount d) d.items.length
 
-/-- `ModelEvaluator::new` follows references to a bounded depth when knowledge requirements
-and item-definition references are acyclic (ranked): any fuel above every rank suffices. -/
-theorem build_terminates_partial (d : Defs) (rank : Nat → Nat)
-    (hk : rankedKnowledge d rank = true) (hi : rankedItems d.items rank = true)
-    (fuel : Nat) (hf : ∀ n, rank n < fuel) : build d fuel ≠ .diverge := by
-  have wr := walkRef_terminates d.items rank hi fuel hf
-  have wp := walkParam_terminates d.items rank hi fuel hf
-  have bk := bringKR_terminates d rank hk fuel hf
-  simp only [build]
+/-- `ModelEvaluator::new` follows references to a bounded depth for **every** definitions
+value, cyclic ones included: it returns `ok` or an error, with any fuel from `bound d` on. -/
+theorem build_terminates (d : Defs) (fuel : Nat) (hf : bound d ≤ fuel) : build d fuel ≠ .diverge := by
+  have hf1 : nodeCount d ≤ fuel := by unfold bound at hf; omega
+  have hf2 : d.items.length ≤ fuel := by unfold bound at hf; omega
+  unfold build
+  cases hr : reqCheck d with
+  | false => simp
+  | true =>
+  simp only [Bool.not_true, Bool.false_eq_true, if_false]
   apply seq_ne_diverge
   · apply forM_ne_diverge
     intro i _
     split <;> simp
+  cases hi : itemCheck d.items with
+  | false => simp
+  | true =>
+  simp only [Bool.not_true, Bool.false_eq_true, if_false]
+  have wr := walkRef_of_check d.items hi fuel hf2
+  have wp := walkParam_of_check d.items hi fuel hf2
+  have bk : ∀ reqs, bringKR d fuel reqs ≠ .diverge := by
+    intro reqs
+    apply allM_ne_diverge
+    intro r _
+    exact bringOne_of_chain d _ r (reqChain_of_check d hr r) fuel hf1
   apply seq_ne_diverge
   · apply forM_ne_diverge
     intro b _
@@ -260,88 +270,90 @@ theorem build_terminates_partial (d : Defs) (rank : Nat → Nat)
       | none => simp
       | some x => exact wr _
 
-/-- A model with two levels of knowledge models and a referenced item definition. -/
+/-- Evaluating any decision, knowledge model or decision service of a model that was built
+follows requirements to a bounded depth. -/
+theorem eval_terminates (d : Defs) (fuel : Nat) (hb : build d fuel = .ok) (id f : Nat)
+    (hf : nodeCount d ≤ f) :
+    evalDecision d f id ≠ .diverge ∧ evalBkm d f id ≠ .diverge ∧ evalService d f id ≠ .diverge := by
+  have hr : reqCheck d = true := by
+    unfold build at hb
+    by_cases hr : reqCheck d = true
+    · exact hr
+    · simp [hr] at hb
+  exact eval_of_chain d _ id (reqChain_of_check d hr id) f hf
+
+/-- A model with cyclic requirements — a set of decisions, knowledge models and decision
+services each of which requires a member of the set — is rejected with an error. -/
+theorem cyclic_requirements_rejected (d : Defs) (C : Nat → Prop) (hC : ReqCycle d C) (id : Nat)
+    (hid : C id) (fuel : Nat) : build d fuel = .error := by
+  simp [build, reqCheck_cycle d C hC id hid]
+
+/-- A model with an item definition on a reference cycle — a set of item definitions each of
+which refers to a member of the set — is rejected with an error. -/
+theorem cyclic_items_rejected (d : Defs) (C : Nat → Prop) (hC : ItemCycle d.items C) (n : Nat)
+    (hn : C n) (fuel : Nat) : build d fuel = .error := by
+  have hic : itemCheck d.items = false := by
+    obtain ⟨it, hl, m, hm, hcm⟩ := hC n hn
+    simp only [itemCheck]
+    rw [List.all_eq_false]
+    refine ⟨(n, it), lookupItem_mem hl, ?_⟩
+    simp only [refsOkWith_eq, Bool.not_eq_true]
+    rw [List.all_eq_false]
+    exact ⟨m, hm, by simp [itemChain_cycle d.items C hC _ m hcm]⟩
+  unfold build
+  cases hr : reqCheck d with
+  | false => simp
+  | true =>
+    simp only [Bool.not_true, Bool.false_eq_true, if_false, hic, Bool.not_false, if_true]
+    cases hq : forM (fun i : Input => if i.typeRef.isSome then Res.ok else Res.error) d.inputs with
+    | ok => simp [seq]
+    | error => simp [seq]
+    | diverge => exact absurd hq (forM_ne_diverge _ _ (fun i _ => by split <;> simp))
+
+/-- A model with two levels of knowledge models and a referenced item definition builds. -/
 def okDefs : Defs :=
   ⟨[(0, .simple), (1, .comp [.ref 0, .collRef 0])], [⟨10, some (.named 1)⟩],
    [⟨20, [], [], none⟩, ⟨21, [20], [.named 0], some .builtin⟩],
    [⟨30, none, [21], [⟨none, some 10⟩]⟩, ⟨31, some (.named 1), [], [⟨some 30, none⟩]⟩], []⟩
 
-example : rankedKnowledge okDefs id = true ∧ rankedItems okDefs.items id = true ∧
-    build okDefs 40 = .ok := by decide
+example : bound okDefs = 4 ∧ build okDefs 4 = .ok ∧ evalDecision okDefs 4 31 = .ok := by decide
 
-/-- F12: two knowledge models requiring each other, reachable from a decision. -/
+/-- The old witnesses of F12 (repaired by aff91af, b66efe5): two knowledge models requiring each
+other, reachable from a decision; -/
 def cycKnowledge : Defs :=
   ⟨[], [], [⟨0, [1], [], none⟩, ⟨1, [0], [], none⟩], [⟨2, none, [0], []⟩], []⟩
-
-/-- F12: an item definition whose type reference is itself, used by a required input. -/
+/-- an item definition whose type reference is itself, used by a required input; -/
 def cycItem : Defs :=
   ⟨[(0, .ref 0)], [⟨5, some (.named 0)⟩], [], [⟨2, none, [], [⟨none, some 5⟩]⟩], []⟩
-
-theorem cycKnowledge_bring : ∀ fuel, bringOne cycKnowledge fuel 0 = .diverge ∧ bringOne cycKnowledge fuel 1 = .diverge := by
-  intro fuel
-  induction fuel with
-  | zero => simp [bringOne]
-  | succ f ih =>
-    constructor
-    · have : findBkm cycKnowledge 0 = some ⟨0, [1], [], none⟩ := by rfl
-      simp [bringOne, this, allM, ih.2]
-    · have : findBkm cycKnowledge 1 = some ⟨1, [0], [], none⟩ := by rfl
-      simp [bringOne, this, allM, ih.1]
-
-theorem cycItem_walk : ∀ fuel, walkName cycItem.items fuel 0 = .diverge := by
-  intro fuel
-  induction fuel with
-  | zero => simp [walkName]
-  | succ f ih =>
-    have : lookupItem cycItem.items 0 = some (.ref 0) := by rfl
-    simp [walkName, this, walkWith, ih]
-
-/-- No amount of fuel lets the builder finish on the cyclic models. -/
-theorem build_terminates_counterexample :
-    (∀ fuel, build cycKnowledge fuel = .diverge) ∧ (∀ fuel, build cycItem fuel = .diverge) := by
-  constructor
-  · intro fuel
-    have h := (cycKnowledge_bring fuel).1
-    simp [build, cycKnowledge, forM, seq, buildBkm, buildDecision, walkRef, bringKR, allM] at h ⊢
-    simp [h]
-  · intro fuel
-    have h := cycItem_walk fuel
-    have hf : findInput cycItem 5 = some ⟨5, some (.named 0)⟩ := by rfl
-    simp only [cycItem] at h hf
-    simp [build, cycItem, forM, seq, buildDecision, buildInfo, walkRef, bringKR, allM, hf, h]
-
-/-- Evaluating any decision, knowledge model or decision service follows requirements to a
-bounded depth when the requirement graph is acyclic (ranked). -/
-theorem eval_terminates_partial (d : Defs) (rank : Nat → Nat) (hr : rankedEval d rank = true)
-    (fuel id : Nat) (hf : rank id < fuel) :
-    evalDecision d fuel id ≠ .diverge ∧ evalBkm d fuel id ≠ .diverge ∧ evalService d fuel id ≠ .diverge :=
-  eval_terminates_aux d rank hr fuel id hf
-
-example : rankedEval okDefs id = true ∧ evalDecision okDefs 40 31 = .ok := by decide
-
-/-- F12: two decisions requiring each other. -/
+/-- two decisions requiring each other; -/
 def cycDecisions : Defs :=
   ⟨[], [], [], [⟨0, none, [], [⟨some 1, none⟩]⟩, ⟨1, none, [], [⟨some 0, none⟩]⟩], []⟩
+/-- a decision service whose output decision requires the service as knowledge. -/
+def cycService : Defs :=
+  ⟨[], [], [], [⟨0, none, [40], []⟩], [⟨40, none, [], [], [], [0]⟩]⟩
 
-/-- The model with two decisions requiring each other builds, and evaluating either decision
-never finishes. -/
-theorem eval_terminates_counterexample :
-    (∀ fuel, build cycDecisions (fuel + 1) = .ok) ∧
-    (∀ fuel, evalDecision cycDecisions fuel 0 = .diverge ∧ evalDecision cycDecisions fuel 1 = .diverge) := by
-  constructor
-  · intro fuel
-    have h0 : findDecision cycDecisions 0 = some ⟨0, none, [], [⟨some 1, none⟩]⟩ := by rfl
-    have h1 : findDecision cycDecisions 1 = some ⟨1, none, [], [⟨some 0, none⟩]⟩ := by rfl
-    simp only [cycDecisions] at h0 h1
-    simp [build, cycDecisions, forM, seq, buildDecision, buildInfo, walkRef, bringKR, allM, h0, h1]
-  · intro fuel
-    induction fuel with
-    | zero => simp [evalDecision]
-    | succ f ih =>
-      have h0 : findDecision cycDecisions 0 = some ⟨0, none, [], [⟨some 1, none⟩]⟩ := by rfl
-      have h1 : findDecision cycDecisions 1 = some ⟨1, none, [], [⟨some 0, none⟩]⟩ := by rfl
-      constructor
-      · simp [evalDecision, h0, allM, seq, ih.2]
-      · simp [evalDecision, h1, allM, seq, ih.1]
+example : ReqCycle cycDecisions (fun id => id = 0 ∨ id = 1) := by
+  intro id h
+  rcases h with rfl | rfl
+  · exact ⟨[1], by decide, 1, by simp, Or.inr rfl⟩
+  · exact ⟨[0], by decide, 0, by simp, Or.inl rfl⟩
+
+example : ItemCycle cycItem.items (fun n => n = 0) := by
+  intro n h
+  subst h
+  exact ⟨.ref 0, rfl, 0, by simp [refs], rfl⟩
+
+/-- All four are rejected with an error, whatever the fuel. -/
+theorem cyclic_witnesses_rejected (fuel : Nat) :
+    build cycKnowledge fuel = .error ∧ build cycItem fuel = .error ∧
+    build cycDecisions fuel = .error ∧ build cycService fuel = .error := by
+  have h1 : reqCheck cycKnowledge = false := by decide
+  have h2 : reqCheck cycItem = true ∧ itemCheck cycItem.items = false := by decide
+  have h3 : reqCheck cycDecisions = false := by decide
+  have h4 : reqCheck cycService = false := by decide
+  refine ⟨by simp [build, h1], ?_, by simp [build, h3], by simp [build, h4]⟩
+  unfold build
+  rw [h2.1, h2.2]
+  simp [cycItem, forM, seq]
 
 end Dmn.MB
